@@ -1072,22 +1072,29 @@ func (s *Stage) putFileAway(file *finalFile) (targetPath string, err error) {
 		targetName = file.renamed
 	}
 	targetPath = filepath.Join(s.targetDir, targetName)
+	again := func() {
+		file.nErr++
+		time.AfterFunc(time.Second*time.Duration(file.nErr), func() {
+			s.logDebug("Attempting finalize again after failure:", file.name)
+			go s.finalizeQueue(file)
+		})
+	}
 	if err = os.MkdirAll(filepath.Dir(targetPath), 0775); err != nil {
+		// The file stays parked and validated - the sender is told so and lets
+		// go of its copy: somebody has to look at it again
+		again()
 		return
 	}
 	if err = fileutil.Move(file.path+waitExt, targetPath); err != nil {
-		// If the file doesn't exist then something is really wrong.
+		// If the parked file doesn't exist then something is really wrong.
 		// Either we somehow have two instances running that are stepping
 		// on each other or we have an illusive and critical bug.  Regardless,
 		// it's not good.
-		if !os.IsNotExist(err) {
-			// If the file is there but we still got an error, let's just try
-			// it again later.
-			file.nErr++
-			time.AfterFunc(time.Second*time.Duration(file.nErr), func() {
-				s.logDebug("Attempting finalize again after failure:", file.name)
-				go s.finalizeQueue(file)
-			})
+		if _, gone := os.Stat(file.path + waitExt); gone == nil {
+			// If the file is there but we still got an error (the target's
+			// directory can have been pruned since it was made), let's just
+			// try it again later.
+			again()
 		}
 		err = fmt.Errorf(
 			"failed to move %s to %s: %s",
